@@ -91,8 +91,7 @@ static void flags(void)
 	    a->read_data_is_posix_read ? 1 : 0, a->read_data_requested, a->file_count, pos);
 }
 
-static void r_begin(void) { alarm(3);    /* a mutated loop that never ends is a crash, not a hang */
-	nent = 0; cur = NULL; idx = pos = 0; a = NULL; entry = NULL; opened = 0; memset(E, 0, sizeof E); }
+static void r_begin(void) { nent = 0; cur = NULL; idx = pos = 0; a = NULL; entry = NULL; opened = 0; memset(E, 0, sizeof E); }
 
 static int parse_entry(char **w, int n)
 {
@@ -129,6 +128,9 @@ static void r_op(char *line)
 {
 	static char *w[MAXV + 8];
 	int n = vh_split(line, w, MAXV + 8);
+	/* a (mutated) loop that never ends is a crash of this op, not a hang of the check; re-armed per op and
+	 * switched off for the teardown, whose leak check can take seconds on a loaded machine */
+	alarm(5);
 	if (n >= 1 && !strcmp(w[0], "entry")) {
 		if (opened || !parse_entry(w, n)) printf("bad-op\n"); else printf("ok\n");
 	} else if (n == 1 && !strcmp(w[0], "open")) {
@@ -172,6 +174,7 @@ static void r_op(char *line)
 
 static void r_end(void)
 {
+	alarm(0);
 	if (a) archive_read_free(a);
 	if (entry) archive_entry_free(entry);
 	for (int i = 0; i < nent; i++) for (int j = 0; j < E[i].nev; j++) free(E[i].ev[j].b);
